@@ -364,6 +364,14 @@ func runFNPNone(c *mon.Case, sp spec) {
 	if !w.setOpt(optFNP, true) {
 		return
 	}
+	if sp.State == "be" && sp.Op == "send" {
+		// best effort set as well: with no peer connected the no-peers error still comes first
+		// (best effort is about not waiting for flow control, not about hiding that nobody is there)
+		if err := w.obj.SetOption(mangos.OptionBestEffort, true); err != nil {
+			c.Inconclusive("%s: BestEffort next to FailNoPeers: %v", w.id(), err)
+			return
+		}
+	}
 	var D time.Duration
 	if sp.WithDL {
 		D = sp.D()
